@@ -18,6 +18,7 @@ rsync -a --exclude target /verif/sim/ "$SIM/sim/"
 sed -i "s#/repo/#$WT/#g" "$SIM/sim/Cargo.toml"
 cp /verif/KNOWN_FINDINGS.txt "$SIM/out/"
 ( cd "$SIM/sim" && CARGO_TARGET_DIR=/tmp/sc_target_$NAME CARGO_NET_OFFLINE=true cargo build --release --offline >"$SIM/build.log" 2>&1 ) || { echo "BUILD FAILED"; grep -E "^error" -A8 "$SIM/build.log" | head -30; git -C /repo worktree remove --force "$WT"; rm -rf "$SIM" /tmp/sc_target_$NAME; exit 2; }
+ulimit -v 25165824 2>/dev/null || true
 RC=0
 for P in "$@"; do
   QSIM_VERIF_DIR="$SIM/out" /tmp/sc_target_$NAME/release/qsim check "$P" "${TIER:-quick}" | grep -E "VIOLATION|key=|KNOWN|quick:|thorough:|HARNESS" | cut -c1-400
